@@ -148,7 +148,8 @@ class Verifier:
     def uf(self, name, arg_sorts, ret_sort):
         k = name
         if k not in self.ufs:
-            self.ufs[k] = z3.Function(name, *(list(arg_sorts) + [ret_sort]))
+            # 'u.' prefix keeps user names clear of SMT-LIB reserved words (match, str.*, ...)
+            self.ufs[k] = z3.Function('u.' + name, *(list(arg_sorts) + [ret_sort]))
         return self.ufs[k]
 
     def feasible(self, pc):
@@ -250,6 +251,9 @@ class Verifier:
                 obj = strip_opt(obj)
             if isinstance(obj.t, ObjT):
                 fam = self.family(obj.t.family)
+                if attr in fam.attr_requires and not self.spec_mode:
+                    ok = truthy(self.eval_spec(fam.attr_requires[attr], st, {'o': obj}))
+                    self.may_raise(st, ok, 'AttributeError', '%s object may lack .%s' % (fam.name, attr), node)
                 if attr in fam.attrs:
                     t = fam.attrs[attr]
                     f = self.uf('%s.%s' % (fam.name, attr), [Ref], sort_of(t))
@@ -983,6 +987,28 @@ class Verifier:
         yt = self.c.yields
         if yt is None:
             raise Unsupported('yield without `yields` type in contract')
+        if not self.spec_mode and (self.c.yield_each or self.c.yield_key):
+            # generator proof rule: a property of each element that mentions only entry values
+            # and the element, proved at every yield, holds for every element of the result;
+            # a key proved fresh w.r.t. the ghost set of earlier keys makes keys pairwise distinct
+            ent = self.entry.fork()
+            ent.pc = st.pc
+            ent.heap = st.heap
+            ent.env = dict(self.entry.env)
+            cv = as_sv(val, yt)
+            for e in self.c.yield_each:
+                g = self.eval_spec_bool(e, ent, {'c': cv})
+                self.oblige(st, g, 'post', 'every yielded c: ' + e, node)
+            if self.c.yield_key:
+                k = self.eval_spec(self.c.yield_key, ent, {'c': cv})
+                kt = type_of(k)
+                ks = st.ghost.get('ykeys')
+                if ks is None:
+                    ks = SV(SetT(kt), z3.K(sort_of(kt), False))
+                kz = pack(k, kt)
+                self.oblige(st, z3.Not(z3.Select(ks.z, kz)), 'post',
+                            'yielded key is new: ' + self.c.yield_key, node)
+                st.ghost['ykeys'] = SV(SetT(kt), z3.Store(ks.z, kz, True))
         cur = st.ghost.get('yielded')
         if cur is None:
             cur = SV(SeqT(yt), z3.Empty(sort_of(SeqT(yt))))
@@ -1098,7 +1124,7 @@ class Verifier:
 
     # --- merging
     def merge_list(self, states):
-        if len(states) <= 1:
+        if len(states) <= 1 or not self.c.merge:
             return states
         m = self.merge_states(states)
         if m is None:
@@ -1189,6 +1215,11 @@ class Verifier:
             return SV(SeqT(yt), z3.Empty(sort_of(SeqT(yt))))
         if key == 'effects':
             return SV(SeqT(STR), z3.Empty(sort_of(SeqT(STR))))
+        if key == 'ykeys':
+            for s in states:
+                v = s.ghost.get('ykeys')
+                if v is not None:
+                    return SV(v.t, z3.K(sort_of(v.t.elem), False))
         return None
 
     # --- try / with
